@@ -5,7 +5,6 @@ package hand
 import (
 	"encoding/json"
 	"fmt"
-	"sync"
 
 	pf "github.com/weedbox/pokerface"
 	"github.com/weedbox/pokerface/combination"
@@ -112,37 +111,6 @@ func (c *Config) NewStarted() (pf.Game, error) {
 		return c.Scene.start(c, c.Options())
 	}
 	g := pf.NewGame(c.Options())
-	if err := g.Start(); err != nil {
-		return nil, err
-	}
-	return g, nil
-}
-
-// sharedOpts: one options object per configuration, handed to every game that is built by
-// replaying a history (as an application does that keeps its table options around and starts
-// hand after hand from them). Anything a game writes into its options is then seen by the next one.
-var sharedOpts sync.Map
-
-// NewStartedShared is NewStarted on the configuration's long-lived options object.
-func (c *Config) NewStartedShared() (pf.Game, error) {
-	k := c.String()
-	v, ok := sharedOpts.Load(k)
-	if !ok {
-		v, _ = sharedOpts.LoadOrStore(k, &struct {
-			mu sync.Mutex
-			o  *pf.GameOptions
-		}{o: c.Options()})
-	}
-	h := v.(*struct {
-		mu sync.Mutex
-		o  *pf.GameOptions
-	})
-	h.mu.Lock()
-	defer h.mu.Unlock()
-	if c.Scene != nil {
-		return c.Scene.start(c, h.o)
-	}
-	g := pf.NewGame(h.o)
 	if err := g.Start(); err != nil {
 		return nil, err
 	}
